@@ -851,12 +851,13 @@ class Oracle:
                 self.trees[key] = None
         return self.trees[key]
 
-    def accept_row(self, m, attr, dt, payload, cur, r):
+    def accept_row(self, m, attr, dt, payload, cur, r, kind='param'):
         """hand the row to the Lean side in the C01 encoding, so that `acceptWire` is recomputed there"""
         from vlib import dtcodec
         if self.tree_of(m, attr, dt) is None:
             self.count_outside += 1
             return
+        self.count_kind[kind] = self.count_kind.get(kind, 0) + 1
         if not (dtcodec.is_json_value(payload) and dtcodec.encodable(payload) and dtcodec.encodable(cur)):
             return
         try:
@@ -869,6 +870,7 @@ class Oracle:
         self.trees = {}
         self.ck = []
         self.count_outside = 0
+        self.count_kind = {}
         self.t = {k: {} for k in ('accept', 'reval', 'convert', 'export', 'cmdaccept', 'cmdconvert', 'cmdexport',
                                   'le', 'lt', 'split', 'chk')}
 
@@ -968,6 +970,8 @@ def command_oracle(orc, modobj, attr, cobj, payload, raws):
         a = cobj.argument
         r = oracle_call(lambda: a.validate(a.import_value(payload)))
         orc.put('cmdaccept', [m, attr, canonj(payload)], orc.res(r))
+        # the argument the command function gets is recomputed by the datatype model as well (no previous value)
+        orc.accept_row(m, attr, a, payload, None, r, kind='cmd')
     if cobj.result:
         for raw in list(raws) + [None]:
             r = oracle_call(cobj.result, raw)
@@ -1102,7 +1106,7 @@ def run_case(nodespec, steps):
                           'pyclass': reply[2][1] if reply and reply[0].startswith('error_') else None})
     return {'node': nj, 'steps': out_steps, 'oracle': orc.json(), 'errors': [],
             'dtrees': [[m, a, t] for (m, a), t in orc.trees.items() if t is not None], 'acceptck': orc.ck,
-            'accept_outside_model': orc.count_outside}
+            'accept_outside_model': orc.count_outside, 'accept_kinds': dict(orc.count_kind)}
 
 
 BAD_RAW = ['a much too long string, longer than any limit', float('nan'), float('inf'), -1e300, 10 ** 40, None, [1, 2, 3, 4, 5, 6, 7, 8, 9],
@@ -1677,6 +1681,7 @@ def run(ctx):
         res.count('oracle.hook-results.raise', sum(1 for r in rec['oracle']['chk'] if isinstance(r[-1], list)))
         res.count('accept-rows.recomputed-by-datatype-model', len(rec.get('acceptck', [])))
         res.count('accept-rows.outside-model(LimitsType...)', rec.get('accept_outside_model', 0))
+        res.count('accept-rows.command-arguments', rec.get('accept_kinds', {}).get('cmd', 0))
         res.count('oracle.accept.ok', sum(1 for r in rec['oracle']['accept'] if r[-1][0] == 'ok'))
         res.count('oracle.accept.err', sum(1 for r in rec['oracle']['accept'] if r[-1][0] != 'ok'))
         if any(st['req'][0] == 'change' and any(c[0] == 'write' for c in st['obs']['calls']) for st in rec['steps']) \
